@@ -48,25 +48,41 @@ func gunzip(data []byte) ([]byte, error) {
 	return out, r.Close()
 }
 
-// "zz" is the harness's custom compression: every byte XOR 0x5a, prefixed by "ZZ".
+// "zz" is the harness's custom compression: "ZZ", every byte XOR 0x5a, then one checksum byte (the sum of the
+// plain bytes). Its decompressor hands out the bytes as they are and reports a checksum mismatch only from Close,
+// the way a decompressor with a trailing integrity check may.
 func zz(data []byte) []byte {
-	out := make([]byte, 0, len(data)+2)
+	out := make([]byte, 0, len(data)+3)
 	out = append(out, 'Z', 'Z')
+	var sum byte
 	for _, b := range data {
 		out = append(out, b^0x5a)
+		sum += b
 	}
-	return out
+	return append(out, sum)
+}
+
+var errZZChecksum = errors.New("zz: checksum mismatch")
+
+func unzzLoose(data []byte) (out []byte, sumOK bool, err error) {
+	if len(data) < 3 || data[0] != 'Z' || data[1] != 'Z' {
+		return nil, false, errors.New("not zz data")
+	}
+	out = make([]byte, 0, len(data)-3)
+	var sum byte
+	for _, b := range data[2 : len(data)-1] {
+		out = append(out, b^0x5a)
+		sum += b ^ 0x5a
+	}
+	return out, sum == data[len(data)-1], nil
 }
 
 func unzz(data []byte) ([]byte, error) {
-	if len(data) < 2 || data[0] != 'Z' || data[1] != 'Z' {
-		return nil, errors.New("not zz data")
+	out, ok, err := unzzLoose(data)
+	if err == nil && !ok {
+		err = errZZChecksum
 	}
-	out := make([]byte, 0, len(data)-2)
-	for _, b := range data[2:] {
-		out = append(out, b^0x5a)
-	}
-	return out, nil
+	return out, err
 }
 
 type zzCompressor struct {
@@ -83,7 +99,8 @@ func (z *zzCompressor) Close() error {
 func (z *zzCompressor) Reset(w io.Writer) { z.w = w; z.buf.Reset() }
 
 type zzDecompressor struct {
-	r *bytes.Reader
+	r   *bytes.Reader
+	bad bool
 }
 
 func (z *zzDecompressor) Read(p []byte) (int, error) {
@@ -92,17 +109,23 @@ func (z *zzDecompressor) Read(p []byte) (int, error) {
 	}
 	return z.r.Read(p)
 }
-func (z *zzDecompressor) Close() error { return nil }
+func (z *zzDecompressor) Close() error {
+	if z.bad {
+		z.bad = false
+		return errZZChecksum
+	}
+	return nil
+}
 func (z *zzDecompressor) Reset(r io.Reader) error {
 	data, err := io.ReadAll(r)
 	if err != nil {
 		return err
 	}
-	out, err := unzz(data)
+	out, ok, err := unzzLoose(data)
 	if err != nil {
 		return err
 	}
-	z.r = bytes.NewReader(out)
+	z.r, z.bad = bytes.NewReader(out), !ok
 	return nil
 }
 
